@@ -641,6 +641,9 @@ type world struct {
 	streamProbe  context.Context // context of a fetcher request of the current stream (Done = that stream is over)
 	pollerMain   bool            // model: the poller of the current stream has left its wait-for-genesis loop
 	hung         bool            // Run did not return after its context was cancelled
+	kvCalls      int64           // store calls of the node since the last quiescent point (spinguard_test.go)
+	spun         bool            // the spin guard parked a goroutine of the pipeline
+	spinPark     chan struct{}
 
 	// monitor state
 	headHeight int64 // -1 = empty
@@ -1138,8 +1141,19 @@ func (w *world) serveBlock(r *req, rp *reply, name string, variant int) {
 }
 
 // settle runs the synchronizer to quiescence and evaluates the monitors on what happened since the last point.
+func (w *world) spinning() bool {
+	w.mu.Lock()
+	defer w.mu.Unlock()
+	return w.spun
+}
+
 func (w *world) settle() {
 	synctest.Wait()
+	if w.spinning() {
+		// the guard parked a pipeline goroutine: the harness's own reads go through the same guarded store and must not park
+		atomic.StoreInt64(&w.kvCalls, 0)
+		return
+	}
 	w.observe()
 	w.monitor()
 }
@@ -1570,6 +1584,8 @@ func replayInBubble(t *testing.T, c *config, path []evt, converge bool, out *res
 		if c.dbFaults > 0 {
 			kv = &storeFaultDB{DB: w.fdb, w: w}
 		}
+		w.spinPark = make(chan struct{}) // a channel of this bubble, never closed (see spinguard_test.go)
+		kv = &spinGuardDB{KeyValueStore: kv, w: w}
 		w.bc = chain.NewNode(kv, c.newState)
 		w.src = &source{calls: make(chan *req, 256), poll: c.poll > 0}
 		cbHeight, cbHash := int64(-1), felt.Zero
@@ -1631,12 +1647,40 @@ func replayInBubble(t *testing.T, c *config, path []evt, converge bool, out *res
 				w.viols = nil // violations on the prefix were reported when the prefix was explored
 			}
 			w.path = path[:i+1]
+			atomic.StoreInt64(&w.kvCalls, 0)
 			if !w.apply(e) {
 				w.infra = fmt.Sprintf("replay divergence: event %s not enabled after %v in state %s", e, pathStrings(path[:i]), w.describe())
 				break
 			}
 			w.settle()
+			if n := atomic.LoadInt64(&w.kvCalls); n > w.stats["max_kv_calls_in_one_step"] {
+				w.stats["max_kv_calls_in_one_step"] = n
+			}
+			if w.spinning() {
+				break
+			}
 		}
+		abandonIfSpinning := func() {
+			if !w.spinning() {
+				return
+			}
+			// a goroutine of the pipeline made more than spinLimit store calls inside one environment step and was parked by
+			// the guard: the Synchronizer is in a busy loop. Nothing further can be decided about this state; the bubble is
+			// abandoned exactly like one whose Run does not return.
+			if w.infra == "" {
+				w.violate("sync-spins-without-blocking (busy loop inside one environment step)", map[string]any{
+					"store_calls_in_the_step": spinLimit, "state_before_the_step": w.describe(),
+					"what": "after this event the Synchronizer keeps calling into the database without ever blocking on the source, a timer or a channel"})
+			}
+			res.label = w.last.kindLabel() + ">spin"
+			res.desc = "spin|" + w.describe()
+			res.key = h16(res.desc)
+			res.viols, res.infra, res.stats, res.depth, res.hung = w.viols, w.infra, w.stats, len(path), true
+			*out = res
+			close(abandoned)
+			<-never
+		}
+		abandonIfSpinning()
 		res.label = w.last.kindLabel() + ">" + w.moved
 		if len(path) == 0 {
 			res.label = "start"
@@ -1647,6 +1691,7 @@ func replayInBubble(t *testing.T, c *config, path []evt, converge bool, out *res
 		if converge && w.infra == "" {
 			w.viols = nil
 			res.conv, res.convSteps = w.converge()
+			abandonIfSpinning()
 		}
 		w.mu.Lock()
 		w.shutdown = true // callbacks fired by the shutdown itself (OpFetch of cancelled fetchers) must not park
@@ -1738,11 +1783,15 @@ func (w *world) converge() (bool, int) {
 			e = evt{K: 'A'}
 		}
 		w.path = append(append([]evt(nil), w.path...), e)
+		atomic.StoreInt64(&w.kvCalls, 0)
 		if !w.apply(e) {
 			w.infra = "convergence run: event not enabled: " + e.String()
 			return true, step
 		}
 		w.settle()
+		if w.spinning() {
+			return false, step // reported and abandoned by the caller
+		}
 	}
 	w.violate("no-convergence within-horizon "+w.stuckClass(), map[string]any{"steps": convHorizon})
 	return false, convHorizon
